@@ -1315,7 +1315,9 @@ def _handle_lookup_stage(in_collection, database, options):
         if isinstance(query, list):
             query = {'$in': query}
         matches = foreign_collection.find({foreign_field: query})
-        doc[local_name] = [foreign_doc for foreign_doc in matches]
+        # Like the documents the pipeline runs over: as stored, with naive UTC datetimes.
+        doc[local_name] = [
+            helpers.patch_datetime_awareness_in_document(foreign_doc) for foreign_doc in matches]
 
     return in_collection
 
@@ -1383,7 +1385,8 @@ def _handle_graph_lookup_stage(in_collection, database, options):
             query = {'$in': query}
         matches = foreign_collection.find({connect_to_field: query})
         new_matches = []
-        for new_match in matches:
+        # Like the documents the pipeline runs over: as stored, with naive UTC datetimes.
+        for new_match in map(helpers.patch_datetime_awareness_in_document, matches):
             if filtering.filter_applies(restrict_search_with_match, new_match) \
                     and new_match['_id'] not in found_items:
                 if depth_field is not None:
